@@ -31,7 +31,9 @@ Theorem C08_accept_iff : forall md5 c ml s b k h data tracked size d bk,
   let res := put_request md5 c true ml s b k h {| br_data := data; br_fail_after := None |} tracked in
   ((exists body vid, snd res = inr (body, vid)) <-> (d = md5 data /\ size = blen data)) /\
   (forall body vid, snd res = inr (body, vid) ->
-     body = data /\ exists v sv, get_object (fst res) b k = OObj v sv /\ vd_body v = data /\ vd_meta v = tracked).
+     body = data /\ exists v sv, get_object (fst res) b k = OObj v sv /\ vd_body v = data /\
+                               vd_meta v = carry_meta s b k tracked /\
+                               (forall kv, In kv tracked -> In kv (vd_meta v))).
 Proof. exact put_accept_iff. Qed.
 Print Assumptions C08_accept_iff.
 
